@@ -139,7 +139,11 @@ def run_check(tier, seed, nworkers=None, nruns=None, budget_s=None, evidence_pat
     for w, v in enumerate(vs):
         c = v["class"]
         pos = members[c].index(w)
+        peer = members[c][(pos + 1) % len(members[c])]
+        peer_list = by_class[c][members[c].index(peer)::len(members[c])]
+        recheck = peer_list[-2:] if (len(members[c]) > 1 or True) else []
         job = {"seed": seed, "tier": tier, "nruns": nruns, "variant": v,
+               "recheck": recheck,
                "cache_dir": cache_dirs[c],
                "peer_cache_dirs": [d for k, d in cache_dirs.items() if k != c],
                "replay_dir": replay_dir,
@@ -157,7 +161,7 @@ def run_check(tier, seed, nworkers=None, nruns=None, budget_s=None, evidence_pat
         "sites": set(), "fault_sites": set(), "interleavings": set(), "samples": [],
         "harness_errors": [], "violations": [], "hello": {}, "server_stats": [],
         "deadline_hit": [], "digests": {}, "records": {}, "max_tasks": 0,
-        "model_s": 0.0, "sim_s": 0.0,
+        "model_s": 0.0, "sim_s": 0.0, "reruns": {},
     }
     live = set(range(nworkers))
     last_msg = time.monotonic()
@@ -223,6 +227,8 @@ def run_check(tier, seed, nworkers=None, nruns=None, budget_s=None, evidence_pat
                         except OSError:
                             pass
                     break
+        elif ty == "rerun":
+            agg["reruns"][msg["index"]] = msg.get("records_digest")
         elif ty == "deadline":
             agg["deadline_hit"].append((w, msg["next_index"]))
         elif ty == "bye":
@@ -239,6 +245,31 @@ def run_check(tier, seed, nworkers=None, nruns=None, budget_s=None, evidence_pat
                                                       "".join(workers[w].err)[-1500:]))
     shutil.rmtree(tmp, ignore_errors=True)
     wall = time.monotonic() - t0
+    # determinism sample: some runs were executed a second time by another worker
+    agg["reruns_compared"] = 0
+    for i, d in agg["reruns"].items():
+        if d is not None and i in agg["digests"]:
+            agg["reruns_compared"] += 1
+            if agg["digests"][i] != d:
+                agg["harness_errors"].append(
+                    "run %d is not deterministic: event-log digest %s vs %s when repeated by "
+                    "another worker" % (i, agg["digests"][i], d))
+    # inventories (informational, from worker 0)
+    h0 = agg["hello"].get(0) or {}
+    agg["uncatalogued"] = h0.get("uncatalogued")
+    try:
+        with open(os.path.join(VERIF, "write_sites_baseline.json")) as f:
+            basew = json.load(f)
+        cur = h0.get("write_sites") or {}
+        new = {}
+        if isinstance(cur, dict) and "error" not in cur:
+            for fn, sites in cur.items():
+                extra = sorted(set(sites) - set(basew.get(fn, ())))
+                if extra:
+                    new[fn] = extra
+        agg["new_write_sites"] = new
+    except (OSError, ValueError):
+        agg["new_write_sites"] = None
 
     # H9: value-level snapshot of the constants must not depend on import order,
     # hash seed or -O/-OO
@@ -351,6 +382,15 @@ def write_evidence(path, tier, seed, agg, wall, nviol, vs, nplan):
         "i1_checks_while_suspended": int(agg["i1_midop_checks"]),
         "probes": dict(agg["probes"].most_common(30)),
         "golden": dict(sstats),
+        "determinism_sample": {"runs_repeated_by_another_worker": agg.get("reruns_compared", 0),
+                               "digest_mismatches": sum(
+                                   1 for e in agg["harness_errors"] if "not deterministic" in e)},
+        "uncatalogued_callables": agg.get("uncatalogued"),
+        "uncatalogued_note": ("py_ecc.__getattr__/__dir__/_import_module are module-protocol "
+                              "hooks (exercised through the lazy.* operations, dir() excluded: "
+                              "see DESIGN 4.1); the _Core*/abstract methods are reached through "
+                              "the public entry points"),
+        "new_write_sites_vs_baseline": agg.get("new_write_sites"),
         "components": {"real": ["all of py_ecc", "hashlib/hmac (OpenSSL)",
                                 "eth_utils.ValidationError", "CPython threads, gc, import system"],
                        "stub": []},
